@@ -195,3 +195,13 @@ void h_raw_release(void) {
   VASSERT(h.f4 == 1 && h.f1 == 1, "one block was requested (the node) and it is released exactly once, not again at destruction");
   VWITNESS("any");
 }
+
+/* ---- C05/C19: an add() that fails after taking a slot gives the slot back: the next add() needs no new pool */
+void h_add_str_fail(void) {
+  int32_t a = (int32_t)vin_u32(), b = (int32_t)vin_u32(); uint8_t p[3] = {vin_u8(), vin_u8(), 0};
+  struct S_Hist h; memset(&h, 0, sizeof h); w_hist_add_str_fail((uint32_t)a, (uint32_t)b, p, &h);
+  VASSERT((h.f5 & 1) == 0 && (h.f2 & 1), "the refused add() reports the failure and sets overflowed()");
+  VASSERT((h.f5 & 2) != 0 && h.f4 == h.f3, "the next add() succeeds WITHOUT an allocator call: the slot of the refused add() was given back");
+  VASSERT(h.f0 == 4 && h.f1 == 4 && (int32_t)h.f8.e[0] == a && (int32_t)h.f8.e[1] == a && (int32_t)h.f8.e[2] == a && (int32_t)h.f8.e[3] == b, "document intact: [a,a,a,b]");
+  VWITNESS("any");
+}
